@@ -109,7 +109,7 @@ let show_result (r : result) : string =
   | OutOfFuel -> "5 ff"
 
 let () =
-  let total = ref 0 and corr_fail = ref 0 and prop_fail = ref 0 and bad = ref 0 in
+  let total = ref 0 and corr_fail = ref 0 and prop_fail = ref 0 and bad = ref 0 and in_scope = ref 0 in
   let do_prop = Array.length Sys.argv > 1 && Sys.argv.(1) = "prop" in
   let show_all = Array.length Sys.argv > 1 && Sys.argv.(1) = "show" in
   (try
@@ -125,6 +125,7 @@ let () =
            let c = decode_case inp in
            let observed = decode_result out in
            let modelled = run_case c in
+           if case_okb c then incr in_scope;
            let corr = result_eqb modelled observed in
            let prop = if do_prop || show_all then prop_case c observed else true in
            if show_all then
@@ -143,4 +144,4 @@ let () =
        end
      done
    with End_of_file -> ());
-  Printf.printf "SUMMARY total=%d corr_fail=%d prop_fail=%d bad=%d\n" !total !corr_fail !prop_fail !bad
+  Printf.printf "SUMMARY total=%d corr_fail=%d prop_fail=%d bad=%d in_scope=%d\n" !total !corr_fail !prop_fail !bad !in_scope
